@@ -181,6 +181,8 @@ RAWBYTE = "~"    # in a member marked rawbyte, every ~ of the command line is th
 def exec_case(cid, s, m):
     c = {"id": cid, "prog": s.get("prog", 0), "spec": s["str"], "env": list(m["env"]), "argv": list(m["argv"]),
          "prerun": [list(x) for x in m.get("prerun", [])]}
+    if m.get("posthelp"):
+        c["posthelp"] = True
     if m.get("rawbyte"):
         c["argv_hex"] = [t.encode().replace(RAWBYTE.encode(), b"\xff").hex() for t in m["argv"]]
     return c
